@@ -164,8 +164,8 @@ fn sort_space(max_n: usize, shard: u64, nshards: u64) -> impl Iterator<Item = So
 
 pub fn run(ck: &mut Check) {
     ck.rule(
-        "G1 (stateful): simulated rooms under the authorization rules of room versions 2-11: a fixed prefix (create, creator join, optional initial power levels, join rules) then up to 40 operations - events by 5 users on 3 servers on any branch head (joins, leaves, invites, kicks, bans, unbans, knocks, user-level and field edits, join-rule changes, ordinary state with several state keys), forks and merge events (state before a merge = reference resolution of its parents); only events valid on their own branch are created; timestamps adversarial (tiny domain in a third of histories), event IDs salted so that ID order is independent of creation order. \
-         Instances: any 2-4 DAG nodes; state sets = state after each node, auth chains = full recursive auth chain of each set. Oracle: reference implementation of state resolution v2 from the spec text over ordered maps (ruma's auth_check as authorization sub-routine); resolve(...) must return exactly the reference map. \
+        "G1 (stateful): simulated rooms under the authorization rules of room versions 2-11: a fixed prefix (create, creator join, optional initial power levels, join rules) then up to 40 operations - events by 5 users on 3 servers on any branch head (joins, leaves, invites, kicks, bans, unbans, knocks, user-level, field and events / notifications entry edits, power levels without a whole map, join-rule changes, ordinary state with several state keys), forks and merge events (state before a merge = reference resolution of its parents); only events valid on their own branch are created; timestamps adversarial (tiny domain in a third of histories), event IDs salted so that ID order is independent of creation order. \
+         Instances: any 2-4 DAG nodes; state sets = state after each node, auth chains = full recursive auth chain of each set. Oracle: reference implementation of state resolution v2 from the spec text over ordered maps (authorization sub-routine: the reference authorization rules of C08, `refauth`; ruma's auth_check stands in only where the specification leaves a verdict open); resolve(...) must return exactly the reference map. \
          G2: lexicographical_topological_sort on all DAGs up to a node bound x all (power level, timestamp, id order) assignments, against 'always the minimum ready node'. Non-trivial = conflicted set non-empty and (a conflicted power event or non-empty auth difference outside it).",
     );
     ck.assume("instances where 'events of the auth chain inside the full conflicted set' differs between walking the whole chain and walking only through conflicted events (Synapse's reading) are counted, not asserted");
